@@ -38,9 +38,11 @@ func TermKind(t string, k int, locField string) Term {
 	case KF1:
 		return Term{T: t, Freq: 1}
 	case KF2L1:
-		return Term{T: t, Freq: 2, Locs: []Loc{{F: locField, P: 1, S: 0, E: 3}}}
+		// start and end straddle 128: their varints differ in length, so a byte-length prefix
+		// computed from the wrong one of them is wrong
+		return Term{T: t, Freq: 2, Locs: []Loc{{F: locField, P: 1, S: 125, E: 130}}}
 	case KF300L2:
-		return Term{T: t, Freq: 300, Locs: []Loc{{F: locField, P: 200, S: 70000, E: 70005}, {F: locField, P: 3, S: 16384, E: 16390}}}
+		return Term{T: t, Freq: 300, Locs: []Loc{{F: locField, P: 200, S: 70000, E: 70005}, {F: locField, P: 3, S: 16380, E: 16390}}}
 	}
 	panic("kind")
 }
